@@ -346,3 +346,18 @@ func Suspend(f func()) {
 	defer func() { cur = saved }()
 	f()
 }
+
+// YieldsOn switches the method-granularity yield points (inserted by the overlay at the
+// start of every library function) on. They carry no object: under the sleep-set search
+// they commute with everything (that search assumes data-race freedom), under the
+// preemption-bounded search they are ordinary preemption points, which lets it see
+// unsynchronised state shared between goroutines when the window spans a method call.
+var YieldsOn bool
+
+// Yield is a scheduling point without a synchronisation object.
+func Yield(name string) {
+	if cur == nil || !YieldsOn || cur.aborted {
+		return
+	}
+	PointOp("yield:"+name, OpSig{}, nil)
+}
